@@ -90,6 +90,9 @@ type BitAnalyzer struct {
 	// Assume gives, for a source path, the number of low bits that may be non-zero
 	// (a fact the rule has established elsewhere, e.g. from a dominating guard).
 	Assume map[string]int
+	// AssumeFn is the same for families of sources (e.g. every call of a helper
+	// whose result range the rule has established).
+	AssumeFn func(src string) (int, bool)
 	// Opaque lets a rule name calls that should be treated as sources of their
 	// own (default: every call is an opaque source named by its path).
 }
@@ -133,6 +136,11 @@ func (a *BitAnalyzer) opaque(v ssa.Value) BitVec {
 	lim := w
 	if n, ok := a.Assume[src]; ok && n < w {
 		lim = n
+	}
+	if a.AssumeFn != nil {
+		if n, ok := a.AssumeFn(src); ok && n < lim {
+			lim = n
+		}
 	}
 	for i := range out {
 		if i < lim {
